@@ -81,12 +81,12 @@ func VH_c06_remotetree() {
 			}
 		}
 	}
-	sm.subscriptionNum = id
+	vhSetSubscriptionNum(sm, id)
 	// one binding (to F1) of either peer's [1].1
 	bindPeer := verifrt.Choice("pre.bind", 3) // 0 none, 1 A, 2 B
 	if bindPeer > 0 {
 		r, _, dev := w.peer(bindPeer - 1)
-		bm.bindingNum = 1
+		vhSetBindingNum(bm, 1)
 		bm.bindingEntries = []*api.BindingEntry{{Id: 1, ServerFeature: w.F1, ClientFeature: r.FeatureByAddress(vhAddr(dev, []uint{1}, 1))}}
 		f3.bindings = append(f3.bindings, vhAddr(dev, []uint{1}, 2))
 	}
@@ -126,6 +126,10 @@ func VH_c06_remotetree() {
 				st = model.NetworkManagementStateChangeTypeAdded
 			}
 			ei.Description.LastStateChange = &st
+			// the device part of an announced entity address is optional on the wire
+			if !en.added && verifrt.Choice(fmt.Sprintf("msg.entityAddress[%d].device", i), 2) == 0 {
+				ei.Description.EntityAddress.Device = nil
+			}
 		}
 		eis = append(eis, ei)
 		if en.added {
